@@ -11,7 +11,8 @@
    the settings have the rule switched on. *)
 From Coq Require Import ZArith List Bool String.
 From QF Require Import Base.Res Base.Bytes Dict.Xml Dict.Build Dict.Validate Dict.ValidateSpec Dict.ValidateInst
-  Dict.ValidateProofs Dict.ValidateGroups Dict.ValidateAccepts Dict.ValidateShipped Dict.ValidateExamples Gen.Dicts.Index.
+  Dict.ValidateProofs Dict.ValidateGroups Dict.ValidateAccepts Dict.ValidateShipped Dict.ValidateExamples Gen.Dicts.Index
+  Codec.FixInt Dict.ValidateGroupDefects Dict.ValidateGroupDefectsEx.
 Import ListNotations.
 Open Scope string_scope.
 Open Scope list_scope.
@@ -173,8 +174,8 @@ Example c15_defects_on_an_instance :
     = Ok (Some (RR_TAG_SPECIFIED_OUT_OF_REQUIRED_ORDER, Some 35)).
 Proof. exact v_ex_mutants. Qed.
 
-(* GROUP DEFECTS (required member of an entry missing, wrong NumInGroup, members out of order): no general defect theorem
-   (c15_accepts covers the acceptance of well-formed groups);
+(* GROUP DEFECTS (required member of an entry missing, wrong NumInGroup, members out of order): the general defect
+   theorems are at the end of this file (c15_defect_group_*; c15_accepts covers the acceptance of well-formed groups);
    the `validate` correspondence stream compares model and code on them and its spec predicate requires every
    message that does not conform to be rejected (sig=nonconforming-accepted:<kind>).  That predicate found the
    defect repaired in /repo commit "required group member missing in a non-final entry is accepted"; the instance
@@ -187,3 +188,172 @@ Example c15_group_member_missing_instance :
   c15_conforms v_ex_settings v_ex_dict v_ex_dict v_ex_group_missing_last = false /\
   validate v_ex_settings (Some v_ex_dict) None v_ex_group_missing_last = Ok (Some (RR_REQUIRED_TAG_MISSING, Some 103)).
 Proof. exact v_ex_group_witness. Qed.
+
+(* ---- GROUP DEFECTS, for every dictionary and message (Dict/ValidateGroupDefects.v) ----
+   [c15_at s app tr m mt tdd add md stack seen]: rules 1-4 of the pipeline pass, RejectInvalidMessage is on, every group
+   of the definitions lists each member once (c15_wf_defsb, as in c15_accepts), and the walk of validateWalk has passed
+   over some number of conforming top-level items -- plain fields, tolerated unknown fields, whole group instances
+   ([c15_items_pre], the prefix form of the specification's c15_items) -- and stands at [stack] having seen the tags [seen].
+   In the theorems the stack begins with the NumInGroup field (num_tag, value) of the group g = first :: fs (first the
+   delimiter).  [c15_entries_pre members delimiter j rest = Some st]: j conforming entries (delimiter first, members in
+   template order, required members present, nested groups conforming) lead from rest to st;
+   [c15_members_of c15_member ms st = Some st']: the members ms of the template, in order, lead from st to st'. *)
+
+(* (a) a required member missing from an entry -- the first (j = 0), a middle or the last one, whatever follows it:
+   after j conforming entries, entry j+1 begins with the delimiter and lists the members ms1; the next member of the
+   template, mem, is required, but the field that follows has another tag.  Reject reason 1, the tag of mem. *)
+Theorem c15_defect_group_member_missing :
+  forall s app tr m mt tdd add md num_tag value rest seen sd g first fs n j v1 st1 ms1 mem ms2 t v st2,
+  c15_at s app tr m mt tdd add md ((num_tag, value) :: rest) seen ->
+  v_zmem num_tag seen = false ->
+  c15_def_of tdd md num_tag = Some sd -> dict_zget num_tag (dmd_fields sd) = Some g ->
+  dfd_fields g = first :: fs ->
+  fix_int_read value = Ok n ->
+  c15_entries_pre (c15_members_of c15_member (first :: fs)) (dfd_tag first) j rest = Some ((dfd_tag first, v1) :: st1) ->
+  first :: fs = ms1 ++ mem :: ms2 ->
+  c15_members_of c15_member ms1 ((dfd_tag first, v1) :: st1) = Some ((t, v) :: st2) ->
+  dfd_required mem = true -> t <> dfd_tag mem ->
+  validate s app tr m = Ok (Some (RR_REQUIRED_TAG_MISSING, Some (dfd_tag mem))).
+Proof. exact (v_defect_group_member_missing v_rd_bool v_rd_timestamp v_rd_float). Qed.
+
+(* (b) NumInGroup differs from the number of entries present: exactly k conforming entries follow the count (what comes
+   after them does not begin with the delimiter: c15_entries_of), the count reads n <> k (larger, smaller, negative).
+   Reject reason 16 (IncorrectNumInGroupCount), the NumInGroup tag. *)
+Theorem c15_defect_group_count :
+  forall s app tr m mt tdd add md num_tag value rest seen sd g first fs n k rest',
+  c15_at s app tr m mt tdd add md ((num_tag, value) :: rest) seen ->
+  v_zmem num_tag seen = false ->
+  c15_def_of tdd md num_tag = Some sd -> dict_zget num_tag (dmd_fields sd) = Some g ->
+  dfd_fields g = first :: fs ->
+  fix_int_read value = Ok n ->
+  c15_entries_of (c15_members_of c15_member (first :: fs)) (dfd_tag first) k rest = Some rest' ->
+  n <> Z.of_nat k ->
+  validate s app tr m = Ok (Some (RR_INCORRECT_NUM_IN_GROUP_COUNT, Some num_tag)).
+Proof. exact (v_defect_group_count v_rd_bool v_rd_timestamp v_rd_float). Qed.
+
+(* (c1) an entry that does not begin with the delimiter: after k conforming entries comes a field (t, v) with another tag
+   although NumInGroup announces more than k entries (k = 0: the first field of the group is not the delimiter).
+   The validator takes the group to end there: reject reason 16, the NumInGroup tag -- not 14/15, and not the tag t. *)
+Theorem c15_defect_group_no_delimiter :
+  forall s app tr m mt tdd add md num_tag value rest seen sd g first fs n k t v rest',
+  c15_at s app tr m mt tdd add md ((num_tag, value) :: rest) seen ->
+  v_zmem num_tag seen = false ->
+  c15_def_of tdd md num_tag = Some sd -> dict_zget num_tag (dmd_fields sd) = Some g ->
+  dfd_fields g = first :: fs ->
+  fix_int_read value = Ok n ->
+  c15_entries_pre (c15_members_of c15_member (first :: fs)) (dfd_tag first) k rest = Some ((t, v) :: rest') ->
+  t <> dfd_tag first -> Z.of_nat k < n ->
+  validate s app tr m = Ok (Some (RR_INCORRECT_NUM_IN_GROUP_COUNT, Some num_tag)).
+Proof. exact (v_defect_group_no_delimiter v_rd_bool v_rd_timestamp v_rd_float). Qed.
+
+(* (c2) a member out of template order, the member due being required: in entry j+1, where the required member mem is
+   due, stands a later member of the template (its tag t is one of ms2).  Reported as mem missing: reject reason 1, the
+   tag of mem (not reason 15 "repeating group fields out of order"). *)
+Theorem c15_defect_group_member_out_of_order :
+  forall s app tr m mt tdd add md num_tag value rest seen sd g first fs n j v1 st1 ms1 mem ms2 t v st2,
+  c15_at s app tr m mt tdd add md ((num_tag, value) :: rest) seen ->
+  v_zmem num_tag seen = false ->
+  c15_def_of tdd md num_tag = Some sd -> dict_zget num_tag (dmd_fields sd) = Some g ->
+  dfd_fields g = first :: fs ->
+  fix_int_read value = Ok n ->
+  c15_entries_pre (c15_members_of c15_member (first :: fs)) (dfd_tag first) j rest = Some ((dfd_tag first, v1) :: st1) ->
+  first :: fs = ms1 ++ mem :: ms2 ->
+  c15_members_of c15_member ms1 ((dfd_tag first, v1) :: st1) = Some ((t, v) :: st2) ->
+  dfd_required mem = true -> In t (map dfd_tag ms2) ->
+  validate s app tr m = Ok (Some (RR_REQUIRED_TAG_MISSING, Some (dfd_tag mem))).
+Proof. exact (v_defect_group_member_out_of_order v_rd_bool v_rd_timestamp v_rd_float). Qed.
+
+(* (c3) an OPTIONAL member behind a later member of its entry: the entry, and with it the group, ends before the
+   displaced field.  In an entry that is not the last this is (c1)/(b): reason 16, the NumInGroup tag.  In the last entry
+   the group instance conforms as far as the validator is concerned (it is one of the items passed over in c15_at) and
+   the displaced field (t, v) is looked up at the top level: not defined for the message and not tolerated by the
+   settings -- reason 2, the tag t; a tag seen before -- reason 13.  These two theorems are the general forms of
+   c15_defect_undefined / c15_defect_duplicate (the items before the field may be groups). *)
+Theorem c15_defect_undefined_after_groups : forall s app tr m mt tdd add md t v rest seen sd,
+  c15_at s app tr m mt tdd add md ((t, v) :: rest) seen ->
+  v_zmem t seen = false ->
+  c15_def_of tdd md t = Some sd -> dict_zget t (dmd_fields sd) = None -> c15_tolerated s t = false ->
+  validate s app tr m = Ok (Some (RR_TAG_NOT_DEFINED_FOR_THIS_MESSAGE_TYPE, Some t)).
+Proof. exact (v_defect_undefined_at v_rd_bool v_rd_timestamp v_rd_float). Qed.
+
+Theorem c15_defect_duplicate_after_groups : forall s app tr m mt tdd add md t v rest seen,
+  c15_at s app tr m mt tdd add md ((t, v) :: rest) seen ->
+  v_zmem t seen = true ->
+  validate s app tr m = Ok (Some (RR_TAG_APPEARS_MORE_THAN_ONCE, Some t)).
+Proof. exact (v_defect_duplicate_at v_rd_bool v_rd_timestamp v_rd_float). Qed.
+
+(* Nested groups: [c15_group_defect g stack e] is the closure of (a) and (b) under "inside entry j+1 of a group whose
+   earlier entries and earlier members conform, the instance of a nested group has the defect e" (constructors
+   gd_member_missing, gd_count, gd_nested) -- a defect at any depth is reported with the reason and tag of the innermost
+   group's rule. *)
+Theorem c15_defect_group_nested : forall s app tr m mt tdd add md num_tag value rest seen sd g e,
+  c15_at s app tr m mt tdd add md ((num_tag, value) :: rest) seen ->
+  v_zmem num_tag seen = false ->
+  c15_def_of tdd md num_tag = Some sd -> dict_zget num_tag (dmd_fields sd) = Some g ->
+  c15_group_defect g ((num_tag, value) :: rest) e ->
+  validate s app tr m = Ok (Some e).
+Proof. exact (v_defect_group v_rd_bool v_rd_timestamp v_rd_float). Qed.
+
+(* The hypotheses are satisfiable: a dictionary with message Y = group NoG(100) [A(101) required delimiter, B(102)
+   optional, C(103) required, nested optional group NoH(110) [H1(111) required delimiter, H2(112) optional, H3(113)
+   required]], plain D(104).  Each verdict below is obtained by applying the theorem named (c15_accepts for the first:
+   a conforming instance with a nested group of two entries), not by evaluating the validator. *)
+Example c15_group_theorems_apply :
+  (* c15_accepts *)
+  validate v_ex_settings (Some v_exn_dict) None v_exn_ok = Ok None /\
+  (* c15_defect_group_member_missing: C missing from the first / second of three / last entry *)
+  validate v_ex_settings (Some v_exn_dict) None v_exn_missing_first = Ok (Some (RR_REQUIRED_TAG_MISSING, Some 103)) /\
+  validate v_ex_settings (Some v_exn_dict) None v_exn_missing_mid = Ok (Some (RR_REQUIRED_TAG_MISSING, Some 103)) /\
+  validate v_ex_settings (Some v_exn_dict) None v_exn_missing_last = Ok (Some (RR_REQUIRED_TAG_MISSING, Some 103)) /\
+  (* c15_defect_group_count: 100=3 with two entries *)
+  validate v_ex_settings (Some v_exn_dict) None v_exn_count = Ok (Some (RR_INCORRECT_NUM_IN_GROUP_COUNT, Some 100)) /\
+  (* c15_defect_group_no_delimiter: the second entry begins with B *)
+  validate v_ex_settings (Some v_exn_dict) None v_exn_no_delim = Ok (Some (RR_INCORRECT_NUM_IN_GROUP_COUNT, Some 100)) /\
+  (* c15_defect_group_member_out_of_order: the nested group before C *)
+  validate v_ex_settings (Some v_exn_dict) None v_exn_out_of_order = Ok (Some (RR_REQUIRED_TAG_MISSING, Some 103)) /\
+  (* c15_defect_undefined_after_groups: optional B behind C in the last entry *)
+  validate v_ex_settings (Some v_exn_dict) None v_exn_displaced = Ok (Some (RR_TAG_NOT_DEFINED_FOR_THIS_MESSAGE_TYPE, Some 102)) /\
+  (* c15_defect_group_nested: H3 missing from the second entry of NoH inside the second entry of NoG *)
+  validate v_ex_settings (Some v_exn_dict) None v_exn_nested_missing = Ok (Some (RR_REQUIRED_TAG_MISSING, Some 113)).
+Proof. exact v_exn_instances. Qed.
+
+(* ... and the hypotheses of (a) and (b) spelled out on two of these instances (for (a): second of three entries; the
+   nested case: v_exn_nested_defect in Dict/ValidateGroupDefectsEx.v builds the c15_group_defect derivation) *)
+Example c15_defect_group_member_missing_hypotheses :
+  let rest := [(101, B "a"); (103, B "c"); (101, B "b"); (101, B "d"); (103, B "e"); (10, B "000")]%list in
+  let fs := [v_exn_mem 1; v_exn_mem 2; v_exn_mem 3]%list in
+  c15_at v_ex_settings (Some v_exn_dict) None v_exn_missing_mid (B "Y") v_exn_dict v_exn_dict v_exn_md
+         ((100, B "3") :: rest) [35; 9; 8] /\
+  v_zmem 100 [35; 9; 8] = false /\
+  c15_def_of v_exn_dict v_exn_md 100 = Some v_exn_md /\ dict_zget 100 (dmd_fields v_exn_md) = Some v_exn_nog /\
+  dfd_fields v_exn_nog = v_exn_mem 0 :: fs /\
+  fix_int_read (B "3") = Ok 3 /\
+  c15_entries_pre (c15_members_of c15_member (v_exn_mem 0 :: fs)) (dfd_tag (v_exn_mem 0)) 1 rest =
+    Some ((dfd_tag (v_exn_mem 0), B "b") :: [(101, B "d"); (103, B "e"); (10, B "000")]) /\
+  v_exn_mem 0 :: fs = ([v_exn_mem 0; v_exn_mem 1] ++ v_exn_mem 2 :: [v_exn_mem 3])%list /\
+  c15_members_of c15_member [v_exn_mem 0; v_exn_mem 1]
+    ((dfd_tag (v_exn_mem 0), B "b") :: [(101, B "d"); (103, B "e"); (10, B "000")]) =
+    Some ((101, B "d") :: [(103, B "e"); (10, B "000")]) /\
+  dfd_required (v_exn_mem 2) = true /\ 101 <> dfd_tag (v_exn_mem 2) /\ dfd_tag (v_exn_mem 2) = 103.
+Proof. exact v_exn_missing_mid_hyp. Qed.
+
+Example c15_defect_group_count_hypotheses :
+  let rest := [(101, B "a"); (103, B "c"); (101, B "d"); (103, B "e"); (104, B "12"); (10, B "000")]%list in
+  let fs := [v_exn_mem 1; v_exn_mem 2; v_exn_mem 3]%list in
+  c15_at v_ex_settings (Some v_exn_dict) None v_exn_count (B "Y") v_exn_dict v_exn_dict v_exn_md
+         ((100, B "3") :: rest) [35; 9; 8] /\
+  v_zmem 100 [35; 9; 8] = false /\
+  c15_def_of v_exn_dict v_exn_md 100 = Some v_exn_md /\ dict_zget 100 (dmd_fields v_exn_md) = Some v_exn_nog /\
+  dfd_fields v_exn_nog = v_exn_mem 0 :: fs /\
+  fix_int_read (B "3") = Ok 3 /\
+  c15_entries_of (c15_members_of c15_member (v_exn_mem 0 :: fs)) (dfd_tag (v_exn_mem 0)) 2 rest =
+    Some [(104, B "12"); (10, B "000")] /\
+  3 <> Z.of_nat 2.
+Proof. exact v_exn_count_hyp. Qed.
+
+Example c15_defect_group_nested_hypothesis :
+  c15_group_defect v_exn_nog
+    [(100, B "2"); (101, B "a"); (103, B "c");
+     (101, B "d"); (103, B "e"); (110, B "2"); (111, B "x"); (113, B "w"); (111, B "z"); (104, B "12"); (10, B "000")]
+    (RR_REQUIRED_TAG_MISSING, Some 113).
+Proof. exact v_exn_nested_defect. Qed.
